@@ -391,10 +391,33 @@ async fn concurrent(ctx: &mut Ctx, nclients: usize, per: u32, seed: u64, case: &
     let mut clients = Vec::new();
     for k in 0..nclients {
         let ty = if k % 3 == 2 { "DEALER" } else { "REQ" };
-        match Peer::attach(&sock, ty, Some(format!("c{k}").as_bytes())).await {
+        // announced identities, none at all, or (as libzmq clients do) an Identity
+        // property of length 0: every client is its own requester all the same
+        let named = format!("c{k}").into_bytes();
+        let ident: Option<&[u8]> = match seed % 3 {
+            0 => Some(&named),
+            1 => None,
+            _ => Some(&[]),
+        };
+        if seed % 3 == 2 && k == 0 {
+            ctx.count("concurrent_runs_with_empty_identity_clients");
+        }
+        match Peer::attach(&sock, ty, ident).await {
             Ok(p) => clients.push(Client { peer: p, total: per, sent: 0, answered: 0, in_flight: false }),
             Err(e) => {
                 ctx.inconclusive(format!("C08 attach: {e}"));
+                return;
+            }
+        }
+    }
+    for i in 0..clients.len() {
+        for j in 0..i {
+            if clients[i].peer.id == clients[j].peer.id {
+                ctx.violation_with(
+                    "C08/rep/two-clients-registered-under-one-identity",
+                    format!("clients {j} and {i} are both registered as {}: REP cannot tell their connections apart", rc::hex(&clients[i].peer.id)),
+                    case.clone(),
+                );
                 return;
             }
         }
@@ -407,7 +430,15 @@ async fn concurrent(ctx: &mut Ctx, nclients: usize, per: u32, seed: u64, case: &
         let request = loop {
             steps += 1;
             if steps > 20_000 {
-                ctx.inconclusive("C08 concurrent: step bound".into());
+                if let Some(k) = clients.iter().position(|c| c.peer.conn.reader_dropped() || c.peer.conn.writer_dropped()) {
+                    ctx.violation_with(
+                        "C08/rep/healthy-client-connection-dropped",
+                        format!("the socket dropped the connection of client {k}, which did nothing but send well-formed requests"),
+                        case.clone(),
+                    );
+                } else {
+                    ctx.inconclusive("C08 concurrent: step bound".into());
+                }
                 return;
             }
             // harvest replies
@@ -524,6 +555,9 @@ async fn concurrent(ctx: &mut Ctx, nclients: usize, per: u32, seed: u64, case: &
 /// REP: a client that announced an identity comes back on a new connection (the old one
 /// ended, seen or not): the reply to a request read from the new connection goes there.
 async fn rep_reconnect(ctx: &mut Ctx, observed: bool, case: &Value) {
+    // "same turn": the end of the old connection is noticed and the new one registered
+    // without anything else getting to run in between
+    let same_turn = case["same_turn"].as_bool().unwrap_or(false);
     let mut sock = Sock::new("REP", None);
     let old = match Peer::attach(&sock, "REQ", Some(b"client-x")).await {
         Ok(p) => p,
@@ -547,14 +581,42 @@ async fn rep_reconnect(ctx: &mut Ctx, observed: bool, case: &Value) {
         return;
     }
     old.conn.close_full(crate::pipe::EndKind::Eof);
-    if observed {
-        let _ = recv_now(&mut sock).await;
-    }
-    let newc = match Peer::attach(&sock, "REQ", Some(b"client-x")).await {
-        Ok(p) => p,
-        Err(e) => {
-            ctx.violation_with("C08/rep/reconnecting-client-rejected", e, case.clone());
-            return;
+    let newc = if same_turn {
+        let backend = sock.backend();
+        {
+            let mut rv = Managed::new(sock.recv());
+            let _ = rv.poll_once();
+        }
+        let (conn, r, w) = crate::pipe::Conn::new();
+        conn.feed(&rc::handshake("REQ", Some(b"client-x")));
+        let mut att = Managed::new(crate::sock::attach_future(backend, r, w));
+        let res = match att.poll_once() {
+            std::task::Poll::Ready(x) => Some(x),
+            std::task::Poll::Pending => att.drive().await.ok().flatten(),
+        };
+        drop(att);
+        sim::settle().await;
+        ctx.count("rep_client_reconnects_in_the_turn_the_end_was_noticed");
+        match res {
+            Some(Ok(id)) => {
+                let hs_len = crate::sock::library_handshake_len(&conn.tap()).unwrap_or(0);
+                Peer { conn, id, ty: "REQ".into(), hs_len }
+            }
+            other => {
+                ctx.violation_with("C08/rep/reconnecting-client-rejected", format!("{other:?}"), case.clone());
+                return;
+            }
+        }
+    } else {
+        if observed {
+            let _ = recv_now(&mut sock).await;
+        }
+        match Peer::attach(&sock, "REQ", Some(b"client-x")).await {
+            Ok(p) => p,
+            Err(e) => {
+                ctx.violation_with("C08/rep/reconnecting-client-rejected", e, case.clone());
+                return;
+            }
         }
     };
     ctx.count("rep_client_reconnects");
@@ -678,6 +740,9 @@ impl Prop for C08 {
         }
         for observed in [false, true] {
             v.push(json!({"kind": "rep_reconnect", "observed": observed}));
+            if observed {
+                v.push(json!({"kind": "rep_reconnect", "observed": true, "same_turn": true}));
+            }
         }
         v.push(json!({"kind": "req_failed_send"}));
         for n in 1..=8usize {
